@@ -89,6 +89,16 @@ void runStore(const json& ep, const char* kind, MakeFn makeFn, SnapFn snapFn, Mu
             mutFn(*slots.at(op.at("slot").get<int>()), op);
             o.kv("slot", op.at("slot").get<int>());
         }
+        else if (name == "selfset")
+        {
+            // the object's own payload given back to it (aliasing): the value must not change
+            if constexpr (std::is_same_v<P, Packet>)
+            {
+                P& x = *slots.at(op.at("slot").get<int>());
+                x.setPayload(x.getPayload());
+            }
+            o.kv("slot", op.at("slot").get<int>());
+        }
         else if (name == "eq")
         {
             const int a = op.at("a").get<int>(), b = op.at("b").get<int>();
